@@ -1,0 +1,7 @@
+//go:build !verif
+// +build !verif
+
+package qnet
+
+// verifSched is a schedule point of the verification harness; without the build tag `verif` it does nothing.
+func verifSched(point string, conn *TcpConn) {}
